@@ -205,6 +205,45 @@ func checkC08(c *Ctx) {
 	r.Min("C08.value-semantics", 1)
 	c.checkValueSemantics("C08.value-semantics")
 
+	// ---- listing order: the relayers take the first confirmed tx above their cursor from the listings, which
+	// are served in store order (oldest first) unless the caller asks otherwise: module code does not rewrite
+	// the caller's page request
+	nPag := 0
+	for _, f := range sortedFuncs(c.LiveReach()) {
+		if p.L.IsGenerated(f.Pos()) || !p.IsModule(f) {
+			continue
+		}
+		ana.Instrs(f, func(in ssa.Instruction) {
+			if call, ok := in.(ssa.CallInstruction); ok {
+				if d, okd := ana.Describe(call.Common()); okd && (d.Name == "Paginate" || d.Name == "FilteredPaginate") {
+					nPag++
+				}
+			}
+			st, ok := in.(*ssa.Store)
+			if !ok {
+				return
+			}
+			fa, ok := st.Addr.(*ssa.FieldAddr)
+			if !ok {
+				return
+			}
+			if n := ana.NamedOf(fa.X.Type()); n != nil && n.Obj().Name() == "PageRequest" {
+				if s := structOf(fa.X.Type()); s != nil {
+					fld := s.Field(fa.Field).Name()
+					if _, fresh := fa.X.(*ssa.Alloc); fresh && (fld == "Limit" || fld == "Key" || fld == "Offset" || fld == "CountTotal") {
+						return // a locally built request that does not touch the direction
+					}
+					r.Bad("C08.listing-order", "page-request:"+fname(f), c.pos(st), "the page request of a listing query is rewritten by the module (field "+fld+"): the relayers rely on the listings being served in store order, oldest first, and pick the first confirmed tx above their cursor")
+				}
+			}
+		})
+	}
+	if nPag > 0 {
+		r.Ok("C08.listing-order", "page-request", "-", sprintf("%d paginated listings, none rewrites its caller's page request", nPag))
+	} else {
+		r.Undecided("C08.listing-order", "page-request", "-", "no paginated listing found")
+	}
+
 	// ---- minter threshold ---------------------------------------------------------------------------
 	c.checkMinterThreshold()
 }
